@@ -26,51 +26,96 @@ def finish (approx : Bool) (px : Nat) (x : List (List Float)) :
   | .error e => "err " ++ errName e
   | .ok sc => showScaler approx sc (transform sc px x)
 
-def handleStd (toks : List String) : Option String := do
-  let wm ← argNat toks "wm"; let ws ← argNat toks "ws"
+/-- memory layouts the harness drives (`C`, `F`, strided window `S`): the model is layout-free, the
+token is validated so that an unknown form is never answered silently -/
+def layOk (toks : List String) (key : String) : Option Unit :=
+  match arg toks key with
+  | some "C" | some "F" | some "S" => some ()
+  | _ => none
+
+/-- the parameter object built by the calling form `via` -/
+def paramsVia (via : String) (m : Method Float) : Option (Params Float) :=
+  match via with
+  | "new" => some (Params.new m)
+  | "setter" =>
+    match m with
+    | .maxAbs => some (Params.standard.setMethod m)
+    | _ => some (Params.maxAbs.setMethod m)
+  | "ctor" =>
+    match m with
+    | .standard true true => some Params.standard
+    | .standard false true => some Params.standardNoMean
+    | .standard true false => some Params.standardNoStd
+    | .standard false false => none
+    | .minMax lo hi => if lo == 0 && hi == 1 then some Params.minMax else some (Params.minMaxRange lo hi)
+    | .maxAbs => some Params.maxAbs
+  | _ => none
+
+def handleLin (approx : Bool) (m : Method Float) (toks : List String) : Option String := do
+  let via ← arg toks "via"
+  layOk toks "layf"; layOk toks "layx"
   let pf ← argNat toks "pf"; let px ← argNat toks "px"
   let fit ← argF64s2 toks "fit"; let x ← argF64s2 toks "x"
+  let q ← paramsVia via m
+  some (finish approx px x (fitParams epsF pf fit q))
+
+def handleStd (toks : List String) : Option String := do
+  let wm ← argNat toks "wm"; let ws ← argNat toks "ws"
   if wm > 1 ∨ ws > 1 then none
-  else some (finish true px x (fitStandard epsF pf fit (wm == 1) (ws == 1)))
+  else handleLin true (.standard (wm == 1) (ws == 1)) toks
 
 def handleMinMax (toks : List String) : Option String := do
   let lo ← argF64 toks "lo"; let hi ← argF64 toks "hi"
-  let pf ← argNat toks "pf"; let px ← argNat toks "px"
-  let fit ← argF64s2 toks "fit"; let x ← argF64s2 toks "x"
-  some (finish false px x (fitMinMax epsF pf fit lo hi))
+  handleLin false (.minMax lo hi) toks
 
-def handleMaxAbs (toks : List String) : Option String := do
-  let pf ← argNat toks "pf"; let px ← argNat toks "px"
-  let fit ← argF64s2 toks "fit"; let x ← argF64s2 toks "x"
-  some (finish false px x (fitMaxAbs epsF pf fit))
+def handleMaxAbs (toks : List String) : Option String := handleLin false .maxAbs toks
 
 def parseKind : String → Option NormKind
   | "l1" => some .l1 | "l2" => some .l2 | "max" => some .max | _ => none
 
 def handleNorm (toks : List String) : Option String := do
   let k ← (arg toks "kind").bind parseKind
+  layOk toks "lay"
   let x ← argF64s2 toks "x"
   some ("ok y=" ++ showList2 showF64c (normTransform k x))
 
+def parseWMethod : String → Option WMethod
+  | "pca" => some .pca | "zca" => some .zca | "chol" => some .cholesky | _ => none
+
+/-- the `Whitener` built by the calling form: constructor, or another constructor then the setter -/
+def wparamsVia (via : String) (m : WMethod) : Option WParams :=
+  match via with
+  | "ctor" => some (match m with | .pca => WParams.pca | .zca => WParams.zca | .cholesky => WParams.cholesky)
+  | "setter" =>
+    some (match m with
+      | .pca => WParams.zca.setMethod .pca
+      | .zca => WParams.cholesky.setMethod .zca
+      | .cholesky => WParams.pca.setMethod .cholesky)
+  | _ => none
+
 /-- whitening: the matrix `W` found by the real SVD / Cholesky travels in the
-request (external, validated by its contract in the harness); the model supplies
-the emptiness guard, the mean and the transform. -/
+request (external, validated by its contract in the harness) as the result of the
+factorisation *of the requested method*; the model supplies the parameter object,
+the emptiness guard, the mean and the transform.  Each output entry is divided by
+its backward-error scale `Σ_i |x_i - mean_i| |W_ai|` (same operations as the harness). -/
 def handleWhiten (toks : List String) : Option String := do
+  let m ← (arg toks "method").bind parseWMethod
+  let via ← arg toks "via"
+  layOk toks "layf"; layOk toks "layx"
   let pf ← argNat toks "pf"
   let fit ← argF64s2 toks "fit"; let x ← argF64s2 toks "x"
   let W ← argF64s2 toks "W"
-  match whitenFit (ε := Unit) (fun _ => .ok W) pf fit with
+  let q ← wparamsVia via m
+  match whitenFitParams (ε := Unit) (fun m' _ => if m' = m then .ok W else .error ()) q pf fit with
   | .error (.inl e) => some ("err " ++ errName e)
   | .error (.inr _) => none
   | .ok (mean, W) =>
-    -- backward-error scale of the matrix product (see harness): p * max|W| * max|x - mean|
-    let wmax := W.flatten.foldl (fun a v => if a < absS v then absS v else a) 0
-    let cmax := (x.map fun r => List.zipWith (fun v m => absS (v - m)) r mean).flatten.foldl
-      (fun a c => if a < c then c else a) 0
-    let kappa := Float.ofNat pf * wmax * cmax
-    let kappa := if kappa > 0 then kappa else 1
-    let y := (whitenTransform mean W x).map fun r => r.map (· / kappa)
-    some s!"ok mean={showList showF64c mean} kappa={showF64c kappa} y={showList2 tilde y}"
+    let y := x.map fun r =>
+      let c := List.zipWith (fun v m => v - m) r mean
+      List.zipWith (fun (v : Float) (w : List Float) =>
+        let scale := (List.zipWith (fun ci wi => absS ci * absS wi) c w).foldl (· + ·) 0
+        if scale > 0 then v / scale else v) (whitenRow mean W r) W
+    some s!"ok mean={showList showF64c mean} y={showList2 tilde y}"
 
 /-- dataset form: records are abstracted to their width; `pout` is the width of
 the transformed records, targets are `n × t` tags, weights a list of tags. -/
@@ -79,6 +124,10 @@ def handleDs (toks : List String) : Option String := do
   let tg ← argNats2 toks "tg"; let w ← argNats toks "w"
   let fnm ← argNats toks "fn"; let tn ← argNats toks "tn"
   let fails ← argNat toks "fpanic"
+  let _ ← argNat toks "var"
+  layOk toks "lay"
+  let carrier ← arg toks "carrier"; let view ← argNat toks "view"
+  if (carrier != "f32" && carrier != "f64") || view > 1 then none else
   let ds : DS Unit (List (List Nat)) (List Nat) :=
     { records := (), targets := tg, weights := w,
       featureNames := fnm.map toString, targetNames := tn.map toString }
